@@ -217,7 +217,7 @@ CHECKS = {
              'to a position of the unrolled circuit; the reported Pauli product is injected there (or the reported measurement result '
              'is flipped as later feedback sees it) in Spec.srun and must flip exactly the error\'s detectors/observables; gate name, '
              'target range and tick must identify that position; every error of the model (or filter) must have a location.',
-        note=TB + ' The matcher\'s bookkeeping is not modelled in Coq; coordinates are not checked.',
+        note=TB + ' The matcher\'s bookkeeping is not modelled in Coq; reported coordinates are compared with the circuit\'s coordinate queries (C15).',
         design='§4 C18'),
     'C14': dict(
         technique='oracle: flows decided on the Choi state of the Coq-extracted specification; theorems on flow groups (Tab.eval homomorphism), '
@@ -248,7 +248,7 @@ CHECKS = {
              'run on one Bell pair per qubit in Spec.srun with identical fault/sweep variables; (record, detectors, observables, final '
              'stabilizer signs) must be equal in distribution for every value of the shared variables (only detectors/observables for '
              'inlined feedback); noise processes identical; structural demands per rewrite; reversed flows re-checked on the Choi state.',
-        note=TB + ' The rewriting code other than the decomposition tables is tied by the oracle only; detector coordinates are not compared.',
+        note=TB + ' The rewriting code other than the decomposition tables is tied by the oracle only; coordinates are compared through the coordinate queries tied by C15.',
         design='§4 C13'),
     'C10': dict(
         technique='oracle over the real analyzer output with theorems on reading decomposed models (Decomp.v: XOR of components, permutation '
